@@ -185,6 +185,7 @@ func emitShape(pk map[string]*pkgInfo) string {
 		facts = append(facts, f)
 	}
 
+	facts = append(facts, shapeC08(pk)...) // C08/C13 pool life cycles (tools/l4gen/access_c08.go)
 	facts = append(facts, shapeUDP(l4)...) // C09 (appended at the end of this file)
 	facts = append(facts, shapeRelayHealth(pk)...) // C03/C11 (appended at the end of this file)
 	facts = append(facts, shapeMSmall(pk)...) // C04/C06/C14 small matchers (shape_msmall.go)
@@ -331,6 +332,10 @@ func collectAccesses(p *pkgInfo, typ string, recvOnly bool) []access {
 }
 
 func emitAccess(pk map[string]*pkgInfo) string {
+	// the refined table lives in access_c08.go; the first cut below is kept for reference
+	if true {
+		return emitAccessC08(pk)
+	}
 	type spec struct {
 		pkg, typ string
 		recvOnly bool
